@@ -14,8 +14,10 @@ import (
 	"github.com/ipld/go-ipld-prime/zzverif/typed"
 )
 
-var bindTypes = []string{"Plain", "OptNull", "Tuple", "Join", "Pairs", "MapSI", "ListS", "UnionK", "UnionKinded", "UnionSP", "EnumS", "EnumI", "Outer", "Nested"}
-var genTypes = []string{"Plain", "OptNull", "Tuple", "Join", "MapSI", "ListS", "UnionK", "UnionKinded", "UnionSP", "Outer"}
+var bindTypes = []string{"Plain", "OptNull", "Tuple", "Join", "Pairs", "MapSI", "ListS", "UnionK", "UnionKinded", "UnionSP", "EnumS", "EnumI", "Outer", "Nested",
+	"MapSU", "ListU", "MapSP", "ListT", "MapSN", "ListN", "OptComp", "EnumX"}
+var genTypes = []string{"Plain", "OptNull", "Tuple", "Join", "MapSI", "ListS", "UnionK", "UnionKinded", "UnionSP", "Outer",
+	"MapSU", "ListU", "MapSP", "ListT", "MapSN", "ListN", "OptComp"}
 
 func views(engine int, name string) {
 	t := schemas.ByName(name)
